@@ -69,6 +69,16 @@ func runQuota(c *Ctx, idx int, champions bool) {
 	} else {
 		sc.Fitness = pick(r, fitConstant, fitUniform, fitLogNormal, fitDominant, fitStagnating, fitDistinct, fitStagnating)
 	}
+	if idx%5 == 3 {
+		sc.SwitchOptsAt = 2 + r.Intn(sc.Epochs-2)
+	}
+	if !champions && idx%7 == 2 {
+		sc.Fitness = fitTiny
+	}
+	if champions && idx%5 == 1 {
+		// weights far beyond the usual range (a long run, a strong mutation power): the champion is copied all the same
+		sc.Opts.WeightMutPower = pick(r, 60.0, 400.0)
+	}
 	if idx%4 == 1 {
 		// force delta coding: short drop-off and stagnating fitness
 		sc.Fitness = fitStagnating
